@@ -16,6 +16,7 @@ import (
 	"verif/internal/gen"
 	"verif/internal/gt"
 	"verif/internal/h"
+	"verif/internal/ops"
 	"verif/internal/ref"
 )
 
@@ -34,7 +35,15 @@ func mem(i int) int {
 	return memSel[i%len(memSel)]
 }
 
+// prepared: gotree trees that were indexed and then edited in memory (see applyHistories), keyed
+// by the model read back from them; parseMem hands each of them out once.
+var prepared = map[*ref.Node]*tree.Tree{}
+
 func parseMem(m *ref.Node, i int) (*tree.Tree, error) {
+	if t, ok := prepared[m]; ok {
+		delete(prepared, m)
+		return t, nil
+	}
 	t, err := gt.FromModel(m)
 	if err != nil {
 		return nil, err
@@ -54,6 +63,45 @@ type Case struct {
 	Tips    bool        `json:"tips"`
 	Ident   bool        `json:"identical_only"`
 	Mem     []int       `json:"mem,omitempty"` // in-memory re-rootings of the parsed trees (0 = none)
+	// Histories: the reference tree (index 0) and / or compared trees (index i+1) were indexed and
+	// then edited in memory by these operations (tip set kept); the oracle reads the models back.
+	Hist map[int][]ops.Op `json:"histories,omitempty"`
+}
+
+// applyHistories replays the histories: the models of the case are replaced by the models read
+// back from the edited objects (the "other presentation" of such a tree is the same model), and
+// the edited objects are what Compare / CompareWeighted see the first time the tree is needed.
+func applyHistories(c Case) (Case, error) {
+	if len(c.Hist) == 0 {
+		return c, nil
+	}
+	c.Comps = append([]*ref.Node{}, c.Comps...)
+	c.CompAlt = append([]*ref.Node{}, c.CompAlt...)
+	for k, hist := range c.Hist {
+		var m *ref.Node
+		switch {
+		case k == 0:
+			m = c.Ref
+		case k-1 < len(c.Comps):
+			m = c.Comps[k-1]
+		default:
+			continue
+		}
+		t2, m2, ok, err := ops.Edited(m, hist, true)
+		if err != nil {
+			return c, err
+		}
+		if !ok {
+			continue
+		}
+		prepared[m2] = t2
+		if k == 0 {
+			c.Ref, c.RefAlt = m2, m2
+		} else {
+			c.Comps[k-1], c.CompAlt[k-1] = m2, m2
+		}
+	}
+	return c, nil
 }
 
 func baseOpts(thorough bool) gen.Opts {
@@ -122,6 +170,14 @@ func genCase(t *rapid.T, thorough bool) Case {
 	}
 	if rapid.Bool().Draw(t, "mem") {
 		c.Mem = rapid.SliceOfN(rapid.IntRange(0, 50), 1, 6).Draw(t, "memsel")
+	}
+	if rapid.IntRange(0, 3).Draw(t, "hashist") == 1 {
+		c.Hist = map[int][]ops.Op{}
+		for k := 0; k <= len(c.Comps) && k <= 5; k++ {
+			if rapid.IntRange(0, 1).Draw(t, "histhere") == 0 {
+				c.Hist[k] = ops.GenHistoryOf(t, ops.SameTaxa, 3)
+			}
+		}
 	}
 	return c
 }
@@ -249,6 +305,13 @@ func runWeighted(refm *ref.Node, comps []*ref.Node, tips, ident bool) (map[int]t
 func check(c Case) error {
 	memSel = c.Mem
 	defer func() { memSel = nil }()
+	for k := range prepared {
+		delete(prepared, k)
+	}
+	c, err := applyHistories(c)
+	if err != nil {
+		return err
+	}
 	tx, err := ref.NewTaxa(c.Ref.Tips())
 	if err != nil {
 		return err
@@ -327,7 +390,7 @@ func check(c Case) error {
 func TestC08Compare(t *testing.T) {
 	h.Run(t, h.Spec[Case]{
 		Property: "C08", Name: "compare", Quick: 8000, Thorough: 400000,
-		Rule: "reference tree (unrooted, 4..12 tips, 5% up to 40/200, multifurcating, all lengths) with 1..5 compared trees of classes {identical, other presentation, contraction, refinement, partial overlap, unrelated} x tips x identical-only; Compare, CompareWeighted and CommonEdges against split-set algebra on the reference model; metamorphic: swapped arguments, re-rooted/rotated presentations; non-trivial = some compared tree shares some but not all splits, or is a contraction/refinement",
+		Rule: "in a quarter of the cases the reference tree and / or compared trees are objects that were indexed and then edited in memory by 1-3 operations that keep the tip set (re-root, NNI, rotate, names of two tips exchanged through Rename or SetName, ShuffleTips, collapse, resolve, copy ...), the oracle working on the models read back; reference tree (unrooted, 4..12 tips, 5% up to 40/200, multifurcating, all lengths) with 1..5 compared trees of classes {identical, other presentation, contraction, refinement, partial overlap, unrelated} x tips x identical-only; Compare, CompareWeighted and CommonEdges against split-set algebra on the reference model; metamorphic: swapped arguments, re-rooted/rotated presentations; non-trivial = some compared tree shares some but not all splits, or is a contraction/refinement",
 		Gen:   genCase,
 		Check: check,
 		Classify: func(c Case) (bool, []string) {
